@@ -20,7 +20,7 @@ use std::rc::Rc;
 
 pub const ID: &str = "C10";
 
-pub const RULE: &str = "cases = (grammar, token sequence); each case is parsed (parse and check, Rich errors, every node wrapped in a span-recording map_with, try_map / validate / select closures recording their spans) through the &[char] baseline and through every other input kind the grammar can run on: &str, &[char; N] (N = 0..=6, 8), Stream over a counting iterator, Stream::boxed(), Stream::exact_size_boxed(), slice.map(eoi, ..) and Stream.map(eoi, ..) over (token, span) pairs with generated GAPPED spans, IterInput over such pairs (Input-only grammars: just / end / empty and combinators), IoInput over a Cursor<Vec<u8>> (ASCII cases; at offset 0 and handed over at a non-zero offset behind an already-read header), &str.with_context(ctx), slice.map_span(shift by 1000). Grammars: C01/C02/C08 classes (recovery incl. nested_delimiters, validate emitters, span captures), half of them over ASCII alphabets. Oracle: same has_output, same output value with every embedded span equal after the documented re-basing (byte offsets for text, the tokens' own spans for mapped inputs -- first.start..last.end, an empty match an empty span between its neighbours --, +1000 for map_span, the context attached for with_context), same number of errors, and for every error the same found / expected set / message / label contexts and the re-based span. Every Stream: the log shared by all clones of the iterator must read 0,1,2,.. (each item pulled at most once, in order, never more than the input holds) after parse and after check. Long family: 7 grammar shapes that backtrack from the far end to the start (choice of two long alternatives differing at the end, repetition then a failing tail, and_is over the whole input, rewind, recovery skipping to a late token, separated list, or_not prefix) with run lengths around 512, 1024 and (IoInput's BufReader) 8192. Graphemes: random strings over combining marks, ZWJ emoji sequences, regional indicators, CRLF, Hangul jamo, variation selectors: any().map_with(span).repeated().collect() over Graphemes::new(s), also behind a backtracking first alternative, must equal unicode_segmentation::graphemes(s, true) with byte-offset spans. A statically typed family runs slice captures, by-reference tokens (any_ref) and custom parsers using span_since / span_from / slice_since / slice_from / slice THROUGH with_context and map_span over &str and &[char] on every string over {a b e-acute G-clef} up to length 5 / 6: equal to the bare input after undoing the re-basing, slices being the caller's memory. NON-TRIVIAL = the reference backtracked over at least one consumed token on that input (the cursor moved backwards in the representation), or (long family) the backtrack crossed a 512-token batch boundary / the IoInput had to seek backwards, or (graphemes) the string has a multi-code-point cluster; distinct by (grammar, input).";
+pub const RULE: &str = "cases = (grammar, token sequence); each case is parsed (parse and check, Rich errors, every node wrapped in a span-recording map_with, try_map / validate / select closures recording their spans) through the &[char] baseline and through every other input kind the grammar can run on: &str, &[char; N] (N = 0..=6, 8), Stream over a counting iterator, Stream::boxed(), Stream::exact_size_boxed(), slice.map(eoi, ..) and Stream.map(eoi, ..) over (token, span) pairs with generated GAPPED spans, IterInput over such pairs (Input-only grammars: just / end / empty and combinators), IoInput over a Cursor<Vec<u8>> (ASCII cases; at offset 0 and handed over at a non-zero offset behind an already-read header), &str.with_context(ctx), slice.map_span(shift by 1000). Grammars: C01/C02/C08 classes (recovery incl. nested_delimiters, validate emitters, span captures), half of them over ASCII alphabets. Oracle: same has_output, same output value with every embedded span equal after the documented re-basing (byte offsets for text, the tokens' own spans for mapped inputs -- first.start..last.end, an empty match an empty span between its neighbours --, +1000 for map_span, the context attached for with_context), same number of errors, and for every error the same found / expected set / message / label contexts and the re-based span. Every Stream: the log shared by all clones of the iterator must read 0,1,2,.. (each item pulled at most once, in order, never more than the input holds) after parse and after check. Long family: 7 grammar shapes that backtrack from the far end to the start (choice of two long alternatives differing at the end, repetition then a failing tail, and_is over the whole input, rewind, recovery skipping to a late token, separated list, or_not prefix) with run lengths around 512, 1024 and (IoInput's BufReader) 8192. Graphemes: random strings over combining marks, ZWJ emoji sequences, regional indicators, CRLF, Hangul jamo, variation selectors: any().map_with(span).repeated().collect() over Graphemes::new(s), also behind a backtracking first alternative, must equal unicode_segmentation::graphemes(s, true) with byte-offset spans. A statically typed family runs slice captures, by-reference tokens (any_ref) and custom parsers using span_since / span_from / slice_since / slice_from / slice THROUGH with_context and map_span over &str and &[char] on every string over {a b e-acute G-clef} up to length 5 / 6: equal to the bare input after undoing the re-basing, slices being the caller's memory. The plain Stream (and half of the boxed ones) sits over an iterator whose size_hint is (0, None), like a lexer's. NON-TRIVIAL = the reference backtracked over at least one consumed token on that input (the cursor moved backwards in the representation), or (long family) the backtrack crossed a 512-token batch boundary / the IoInput had to seek backwards, or (graphemes) the string has a multi-code-point cluster; distinct by (grammar, input).";
 
 pub const ASSUMPTIONS: &[&str] = &[
     "the &[char] baseline (tied to the reference PEG / error semantics by C01, C05, C06, C08)",
